@@ -436,11 +436,15 @@ class ProgramFilter:
         result: ProgramPathSet = programs_1  # by default, keep all programs featuring taxon_1
         for program in programs_1 & programs_2:  # for each program featuring both taxon sets
             spans = self.db_programs[program]["taxa"]
-            exists_span_2_satisfying_predicate: Dict[Tuple, bool] = defaultdict(bool)
-            for (span_1, span_2) in self.iterate_on_spans(spans, taxa_1, taxa_2):
-                exists_span_2_satisfying_predicate[tuple(span_1)] |= predicate(span_1, span_2)
-            if all(exists_span_2_satisfying_predicate.values()):
-                # for any span_1, there is at least one span_2 such that predicate(span_1, span_2)
+            occurrences_2 = [(t, i, s) for t in taxa_2 for (i, s) in enumerate(spans.get(t, []))]
+            for (taxon_1, i_1, span_1) in [(t, i, s) for t in taxa_1 for (i, s) in enumerate(spans.get(t, []))]:
+                if not any(
+                    predicate(span_1, span_2)
+                    for (taxon_2, i_2, span_2) in occurrences_2
+                    if (taxon_2, i_2) != (taxon_1, i_1)
+                ):
+                    break  # this occurrence of taxon_1 is in relation with no other occurrence of taxon_2
+            else:
                 result.remove(program)
         return result
 
